@@ -11,6 +11,7 @@ func init() {
 	register("C04", checkC04)
 	register("C07", checkC07)
 	needsHooks["C03"] = true // the conformance of the copy-on-write model reads trees through fox.VerifDump*
+	needsHooks["C04"] = true // counting the loads of the published state per request needs the verification point at the load
 	needsHooks["C07"] = true // the structural conformance of the radix layer reads the tree through fox.VerifDump
 }
 
@@ -158,6 +159,18 @@ func themeTxnMid(r *Run, rng *rand.Rand) *routerGen {
 	return g
 }
 
+// one node key holding two infix catch-alls (its lookup structure is nested twice), with routes below it: writes
+// strictly below that node, in transactions that commit or abort, read back through every entry point
+func themeTxnInfix2(r *Run, rng *rand.Rand) *routerGen {
+	g := txnBase([]string{"/a/*{x}/b/*{y}/c/d", "/a/*{x}/b/*{y}/c/e", "/a/*{x}/b/*{y}/c/d/f"}, []string{"Handle", "Update", "Delete"}, 2, 0)
+	g.Settled = []string{"Has"}
+	stdProbes(g, rng, 4)
+	for _, p := range []string{"/a/1/b/2/c/d", "/a/1/b/2/c/e", "/a/1/b/2/c/d/f", "/a/1/2/b/3/4/c/d/f", "/a/1/b/2/c/", "/a/1/b/2/c"} {
+		g.Probes = append(g.Probes, probeReq{M: 1, Path: p})
+	}
+	return g
+}
+
 func txnBase(pool []string, kinds []string, maxOps, snaps int) *routerGen {
 	g := baseGen(pool, []string{"GET"})
 	g.Txns, g.Snaps, g.MaxOps = 1, snaps, maxOps
@@ -218,7 +231,7 @@ func checkC02(r *Run) {
 // C07 - routing depends only on the registered set, not on its history.
 func checkC07(r *Run) {
 	if only("themes") {
-		runThemes(r, 7, themeSeqPath, themeSeqHost, themeTxnFanout, themeTxnNested, themeTxnTrunc, themeTxnMid)
+		runThemes(r, 7, themeSeqPath, themeSeqHost, themeTxnFanout, themeTxnNested, themeTxnTrunc, themeTxnMid, themeTxnInfix2)
 	}
 	if only("matchd2") {
 		runMatchD2(r, true, true)
@@ -232,7 +245,7 @@ func checkC07(r *Run) {
 // C03 - a published routing state never changes.
 func checkC03(r *Run) {
 	if only("themes") {
-		runThemes(r, 3, themeTxnSibling, themeTxnNested, themeTxnFanout, themeTxnTruncSnap)
+		runThemes(r, 3, themeTxnSibling, themeTxnNested, themeTxnFanout, themeTxnTruncSnap, themeTxnInfix2)
 	}
 	if only("routerd2") {
 		runRouterD2(r, 3)
@@ -256,7 +269,9 @@ func checkC03(r *Run) {
 
 // C04 - transactions are atomic and isolated.
 func checkC04(r *Run) {
-	runThemes(r, 4, themeTxnSibling, themeTxnNested, themeTxnTrunc, themeTxnFanout, themeTxnConflict)
+	runThemes(r, 4, themeTxnSibling, themeTxnNested, themeTxnTrunc, themeTxnFanout, themeTxnConflict, themeTxnInfix2)
 	runPanicInsideWrites(r)
 	runSnapshotIsReadOnly(r)
+	runWriterAfterEndings(r)
+	runSingleLoadPerRead(r) // a request that loads the published state twice can be answered from two sides of a commit
 }
